@@ -38,7 +38,7 @@ func init() {
 			{Name: "BisectInterior takes the outside parameter", File: "model3d/surface_estimator.go",
 				Old: "_, alpha := s.BisectInterpRange(p1, p2, 0, 1)", New: "alpha, _ := s.BisectInterpRange(p1, p2, 0, 1)", Rule: "BP.SEL", Expect: "BisectInterior"},
 			{Name: "interior point recomputed as a convex combination", File: "model3d/surface_estimator.go",
-				Old: "\t_, alpha := s.BisectInterpRange(p1, p2, 0, 1)\n\treturn p1.Add(p2.Sub(p1).Scale(alpha))", New: "\t_, alpha := s.BisectInterpRange(p1, p2, 0, 1)\n\treturn p1.Scale(1 - alpha).Add(p2.Scale(alpha))", Rule: "BP.SAME", Expect: "BisectInterior"},
+				Old: "\t\treturn p2\n\t}\n\treturn p1.Add(p2.Sub(p1).Scale(alpha))", New: "\t\treturn p2\n\t}\n\treturn p1.Scale(1 - alpha).Add(p2.Scale(alpha))", Rule: "BP.SAME", Expect: "BisectInterior"},
 			{Name: "solid collider returns the outside end", File: "model3d/collisions.go",
 				Old: "\t// Always return the point inside the solid\n\treturn max", New: "\t// Always return the point inside the solid\n\treturn min", Rule: "BP.OUT", Expect: "bisectCollision"},
 			{Name: "repair epsilon not scaled by Delta when set explicitly", File: "model3d/dc.go",
